@@ -122,7 +122,7 @@ class AddressAg(AddressBase):
         line = h.init_line(line)
         line_d = parsers.parse_address(line)
         line = line_d["address"]
-        self._sequence = h.init_int(line_d["sequence"])
+        sequence = h.init_int(line_d["sequence"])
 
         if self._is_address_any(line):
             if self._platform == "nxos":
@@ -142,6 +142,7 @@ class AddressAg(AddressBase):
             self._line_addrgroup(line)
         else:
             raise ValueError(f"invalid address {line=}")
+        self._sequence = sequence  # stored only when the address is accepted
 
     @property
     def platform(self) -> str:
